@@ -127,12 +127,14 @@ void c01s_case(Ctx& c, Rng& r) {
 HX_PROPERTY("C01s", c01s_case);
 
 // ------------------------------------------------------------------------------------ C04
+// Everything in the (dedicated) storage directory counts: a staging or temporary file holding chunk bytes is
+// as much a leftover as a *.chunk file.
 std::vector<std::string> list_chunk_files(const std::string& dir) {
     std::vector<std::string> out;
     std::error_code ec;
-    for (auto& e : fs::directory_iterator(dir, ec)) {
-        const auto name = e.path().filename().string();
-        if (name.size() > 6 && name.substr(name.size() - 6) == ".chunk") out.push_back(name);
+    for (auto& e : fs::recursive_directory_iterator(dir, ec)) {
+        if (e.is_directory(ec)) continue;
+        out.push_back(fs::relative(e.path(), dir, ec).string());
     }
     std::sort(out.begin(), out.end());
     return out;
